@@ -208,7 +208,7 @@ macro_rules! static_vec_h {
     };
 }
 static_vec_h!(c16_static_vec_history_a, 2, 4, 0);
-static_vec_h!(c16_static_vec_history_b, 2, 4, 1);
+static_vec_h!(c16_static_vec_history_b, 2, 3, 1);
 static_vec_h!(c16_static_vec_history_deep_a, 3, 6, 0);
 static_vec_h!(c16_static_vec_history_deep_b, 3, 5, 1);
 
@@ -236,7 +236,7 @@ fn reloc_vec_run<const CAP: usize, const STEPS: usize, const OPSET: u8>() {
 }
 
 proof!(9, fn c16_relocatable_vec_history_a() { reloc_vec_run::<2, 4, 0>(); });
-proof!(9, fn c16_relocatable_vec_history_b() { reloc_vec_run::<2, 4, 1>(); });
+proof!(9, fn c16_relocatable_vec_history_b() { reloc_vec_run::<2, 3, 1>(); });
 proof!(9, fn c16_relocatable_vec_history_deep_a() { reloc_vec_run::<3, 6, 0>(); });
 proof!(9, fn c16_relocatable_vec_history_deep_b() { reloc_vec_run::<3, 5, 1>(); });
 
@@ -267,7 +267,7 @@ fn poly_vec_run<const CAP: usize, const STEPS: usize, const OPSET: u8>() {
 }
 
 proof!(9, fn c16_polymorphic_vec_history_a() { poly_vec_run::<2, 3, 0>(); });
-proof!(9, fn c16_polymorphic_vec_history_b() { poly_vec_run::<2, 3, 1>(); });
+proof!(9, fn c16_polymorphic_vec_history_b() { poly_vec_run::<2, 2, 1>(); });
 proof!(9, fn c16_polymorphic_vec_history_deep_a() { poly_vec_run::<3, 5, 0>(); });
 proof!(9, fn c16_polymorphic_vec_history_deep_b() { poly_vec_run::<3, 4, 1>(); });
 
@@ -502,7 +502,6 @@ macro_rules! slot_like {
 }
 slot_like!(SlotMap<Tracked>);
 slot_like!(FixedSizeSlotMap<Tracked, 2>);
-slot_like!(FixedSizeSlotMap<Tracked, 3>);
 
 fn slotmap_history<S: SlotLike, const CAP: usize, const STEPS: usize>(s: &mut S) {
     // model: id/val per key, id 0 = empty
@@ -615,7 +614,7 @@ fn slotmap_history<S: SlotLike, const CAP: usize, const STEPS: usize>(s: &mut S)
 proof!(9, fn c16_fixed_slotmap_history() {
     {
         let mut s = FixedSizeSlotMap::<Tracked, 2>::new();
-        slotmap_history::<_, 2, 4>(&mut s);
+        slotmap_history::<_, 2, 3>(&mut s);
     }
     assert_all_dropped();
     canaries();
@@ -623,15 +622,15 @@ proof!(9, fn c16_fixed_slotmap_history() {
 proof!(9, fn c16_owning_slotmap_history() {
     {
         let mut s = SlotMap::<Tracked>::new(2);
-        slotmap_history::<_, 2, 4>(&mut s);
+        slotmap_history::<_, 2, 3>(&mut s);
     }
     assert_all_dropped();
     canaries();
 });
-proof!(9, fn c16_fixed_slotmap_history_deep() {
+proof!(9, fn c16_owning_slotmap_history_deep() {
     {
-        let mut s = FixedSizeSlotMap::<Tracked, 3>::new();
-        slotmap_history::<_, 3, 5>(&mut s);
+        let mut s = SlotMap::<Tracked>::new(2);
+        slotmap_history::<_, 2, 5>(&mut s);
     }
     assert_all_dropped();
     canaries();
@@ -641,7 +640,45 @@ proof!(9, fn c16_fixed_slotmap_history_deep() {
 // flat map
 // ------------------------------------------------------------------------------------------
 
-fn flatmap_history<const STEPS: usize>(m: &mut FixedSizeFlatMap<u8, Tracked, 2>) {
+trait FlatLike {
+    fn f_insert(&mut self, k: u8, v: Tracked) -> Result<(), FlatMapError>;
+    fn f_remove(&mut self, k: &u8) -> Option<Tracked>;
+    fn f_get(&self, k: &u8) -> Option<Tracked>;
+    fn f_get_ref(&self, k: &u8) -> Option<&Tracked>;
+    fn f_contains(&self, k: &u8) -> bool;
+    fn f_len(&self) -> usize;
+    fn f_is_empty(&self) -> bool;
+    fn f_is_full(&self) -> bool;
+    fn f_keys(&self) -> (u8, usize);
+}
+macro_rules! flat_like {
+    ($t:ty) => {
+        impl FlatLike for $t {
+            fn f_insert(&mut self, k: u8, v: Tracked) -> Result<(), FlatMapError> { self.insert(k, v) }
+            fn f_remove(&mut self, k: &u8) -> Option<Tracked> { self.remove(k) }
+            fn f_get(&self, k: &u8) -> Option<Tracked> { self.get(k) }
+            fn f_get_ref(&self, k: &u8) -> Option<&Tracked> { self.get_ref(k) }
+            fn f_contains(&self, k: &u8) -> bool { self.contains(k) }
+            fn f_len(&self) -> usize { self.len() }
+            fn f_is_empty(&self) -> bool { self.is_empty() }
+            fn f_is_full(&self) -> bool { self.is_full() }
+            fn f_keys(&self) -> (u8, usize) {
+                let mut listed = 0u8;
+                let mut n = 0;
+                self.list_keys(|k| {
+                    listed |= 1 << *k;
+                    n += 1;
+                    iceoryx2_bb_elementary::CallbackProgression::Continue
+                });
+                (listed, n)
+            }
+        }
+    };
+}
+flat_like!(FlatMap<u8, Tracked>);
+flat_like!(FixedSizeFlatMap<u8, Tracked, 2>);
+
+fn flatmap_history<M: FlatLike, const STEPS: usize>(m: &mut M) {
     const CAP: usize = 2;
     // model: up to CAP (key, id, val) entries, id 0 = unused
     let mut mk = [0u8; CAP];
@@ -674,7 +711,7 @@ fn flatmap_history<const STEPS: usize>(m: &mut FixedSizeFlatMap<u8, Tracked, 2>)
             0 => {
                 let e = Tracked::new(x);
                 let id = e.id;
-                match m.insert(key, e) {
+                match m.f_insert(key, e) {
                     Ok(()) => {
                         assert!(pos == CAP, "c16: flat map accepted a duplicate key");
                         assert!(free < CAP, "c16: flat map accepted an insert beyond its capacity");
@@ -692,7 +729,7 @@ fn flatmap_history<const STEPS: usize>(m: &mut FixedSizeFlatMap<u8, Tracked, 2>)
                     }
                 }
             }
-            1 => match m.remove(&key) {
+            1 => match m.f_remove(&key) {
                 Some(e) => {
                     assert!(pos < CAP, "c16: flat map removed a key it does not hold");
                     assert!(e.id == mid[pos] && e.val() == mval[pos], "c16: flat map remove returned the wrong value");
@@ -700,17 +737,17 @@ fn flatmap_history<const STEPS: usize>(m: &mut FixedSizeFlatMap<u8, Tracked, 2>)
                 }
                 None => assert!(pos == CAP, "c16: flat map remove missed a key"),
             },
-            2 => match m.get(&key) {
+            2 => match m.f_get(&key) {
                 // get clones: fresh id, same value
                 Some(e) => assert!(pos < CAP && e.val() == mval[pos] && e.id != mid[pos]),
                 None => assert!(pos == CAP),
             },
             _ => {
-                match m.get_ref(&key) {
+                match m.f_get_ref(&key) {
                     Some(e) => assert!(pos < CAP && e.id == mid[pos] && e.val() == mval[pos]),
                     None => assert!(pos == CAP),
                 }
-                assert!(m.contains(&key) == (pos < CAP));
+                assert!(m.f_contains(&key) == (pos < CAP));
             }
         }
         let mut mlen = 0;
@@ -723,17 +760,11 @@ fn flatmap_history<const STEPS: usize>(m: &mut FixedSizeFlatMap<u8, Tracked, 2>)
             }
             i += 1;
         }
-        assert!(m.len() == mlen, "c16: flat map length differs from the model");
+        assert!(m.f_len() == mlen, "c16: flat map length differs from the model");
         assert!(live() == mlen, "c16: number of live elements differs from the flat map content (leak or double drop)");
-        assert!(m.is_empty() == (mlen == 0));
-        assert!(m.is_full() == (mlen == CAP));
-        let mut listed = 0u8;
-        let mut n = 0;
-        m.list_keys(|k| {
-            listed |= 1 << *k;
-            n += 1;
-            iceoryx2_bb_elementary::CallbackProgression::Continue
-        });
+        assert!(m.f_is_empty() == (mlen == 0));
+        assert!(m.f_is_full() == (mlen == CAP));
+        let (listed, n) = m.f_keys();
         assert!(listed == keyset && n == mlen, "c16: flat map list_keys differs from the model");
         step += 1;
     }
@@ -743,16 +774,16 @@ fn flatmap_history<const STEPS: usize>(m: &mut FixedSizeFlatMap<u8, Tracked, 2>)
 
 proof!(9, fn c16_flatmap_history() {
     {
-        let mut m = FixedSizeFlatMap::<u8, Tracked, 2>::new();
-        flatmap_history::<4>(&mut m);
+        let mut m = FlatMap::<u8, Tracked>::new(2);
+        flatmap_history::<_, 3>(&mut m);
     }
     assert_all_dropped();
     canaries();
 });
 proof!(9, fn c16_flatmap_history_deep() {
     {
-        let mut m = FixedSizeFlatMap::<u8, Tracked, 2>::new();
-        flatmap_history::<5>(&mut m);
+        let mut m = FlatMap::<u8, Tracked>::new(2);
+        flatmap_history::<_, 5>(&mut m);
     }
     assert_all_dropped();
     canaries();
@@ -1038,5 +1069,14 @@ proof!(9, fn c16_string_find_model() {
     assert!(s.rfind(&nb[..nn]) == last, "c16: rfind differs from a naive search");
     kani::cover!(nn == 3 && first == Some(1), "three byte needle found at offset 1");
     kani::cover!(first.is_some() && first != last, "needle occurs twice");
+    canaries();
+});
+
+proof!(9, fn c16_fixed_flatmap_history() {
+    {
+        let mut m = FixedSizeFlatMap::<u8, Tracked, 2>::new();
+        flatmap_history::<_, 3>(&mut m);
+    }
+    assert_all_dropped();
     canaries();
 });
